@@ -70,3 +70,384 @@ theorem eraseSpecFrom_all_ge (s : Nat) (xs : List α) (idx : List Nat)
     rw [ih (s + 1) (fun i hi => by have := h i hi; simp at this; omega)]
 
 end Nifly.Util
+
+namespace Nifly.Util
+
+/-! ### collapse -/
+
+theorem filter_lt_eq_nil_of_ge (idx : List Nat) (s : Nat) (h : ∀ i ∈ idx, s ≤ i) :
+    idx.filter (· < s) = [] := by
+  rw [List.filter_eq_nil_iff]
+  intro a ha
+  have := h a ha
+  simp; omega
+
+theorem collapseLoop_eq (k si di : Nat) (idx : List Nat) (hasc : Asc idx) (hge : ∀ i ∈ idx, si ≤ i) :
+    collapseLoop k si di idx =
+      (List.range' si k).map fun i =>
+        if i ∈ idx then (-1 : Int) else ((di + (i - si) - (idx.filter (· < i)).length : Nat) : Int) := by
+  induction k generalizing si di idx with
+  | zero => cases idx <;> simp [collapseLoop]
+  | succ k ih =>
+    cases idx with
+    | nil =>
+      simp only [collapseLoop, List.range'_succ, List.map_cons, List.not_mem_nil, if_false,
+        List.filter_nil, List.length_nil]
+      rw [ih (si + 1) (di + 1) [] (by simp) (by simp)]
+      congr 1
+      · simp
+      · apply List.map_congr_left
+        intro i hi
+        have := (List.mem_range'_1.mp hi).1
+        simp
+        omega
+    | cons j is =>
+      have hasc' : Asc is := (List.pairwise_cons.mp hasc).2
+      have hlt : ∀ x ∈ is, j < x := (List.pairwise_cons.mp hasc).1
+      have hj : si ≤ j := hge j (by simp)
+      simp only [collapseLoop, List.range'_succ, List.map_cons]
+      by_cases h : si = j
+      · subst h
+        simp only [if_true, List.mem_cons, true_or]
+        rw [ih (si + 1) di is hasc' (fun x hx => by have := hlt x hx; omega)]
+        congr 1
+        apply List.map_congr_left
+        intro i hi
+        have hi1 := (List.mem_range'_1.mp hi).1
+        have hne : i ≠ si := by omega
+        have hdec : decide (si < i) = true := by simp; omega
+        simp only [hne, false_or, List.filter_cons, hdec, if_true, List.length_cons]
+        split
+        · rfl
+        · congr 1; omega
+      · have hnot : si ∉ j :: is := by
+          intro hm
+          rcases List.mem_cons.mp hm with h1 | h1
+          · exact h h1
+          · have := hlt si h1; omega
+        simp only [h, if_false, hnot]
+        rw [ih (si + 1) (di + 1) (j :: is) hasc (fun x hx => by
+          rcases List.mem_cons.mp hx with h1 | h1
+          · omega
+          · have := hlt x h1; omega)]
+        congr 1
+        · rw [filter_lt_eq_nil_of_ge _ _ hge]; simp
+        · apply List.map_congr_left
+          intro i hi
+          have hi1 := (List.mem_range'_1.mp hi).1
+          split
+          · rfl
+          · congr 1; omega
+
+/-! ### triangle remap -/
+
+theorem applyMapLoop_fst (map : List Int) (si : Nat) (ts : List Tri) :
+    (applyMapLoop map si ts).1 = ts.filterMap (mapTri map) := by
+  induction ts generalizing si with
+  | nil => simp [applyMapLoop]
+  | cons t ts ih =>
+    simp only [applyMapLoop, List.filterMap_cons]
+    have := ih (si + 1)
+    split <;> rename_i h <;> simp [h, ← this]
+
+/-- positions (counted from `si`) of the triangles that are dropped -/
+def droppedFrom (map : List Int) (si : Nat) : List Tri → List Nat
+  | [] => []
+  | t :: ts => if (mapTri map t).isNone then si :: droppedFrom map (si + 1) ts else droppedFrom map (si + 1) ts
+
+theorem applyMapLoop_snd (map : List Int) (si : Nat) (ts : List Tri) :
+    (applyMapLoop map si ts).2 = droppedFrom map si ts := by
+  induction ts generalizing si with
+  | nil => simp [applyMapLoop, droppedFrom]
+  | cons t ts ih =>
+    simp only [applyMapLoop, droppedFrom]
+    have := ih (si + 1)
+    split <;> rename_i h <;> simp [h, ← this]
+
+/-! ### strips -/
+
+theorem stripLoop_eq (i a b : Nat) (cs : List Nat) :
+    stripLoop i a b cs =
+      (List.range cs.length).filterMap fun k =>
+        match (a :: b :: cs)[k]?, (a :: b :: cs)[k+1]?, (a :: b :: cs)[k+2]? with
+        | some x, some y, some z =>
+            if x ≠ y ∧ y ≠ z ∧ z ≠ x then some (if (i + k) % 2 = 0 then ⟨x, y, z⟩ else ⟨x, z, y⟩) else none
+        | _, _, _ => none := by
+  induction cs generalizing i a b with
+  | nil => simp [stripLoop]
+  | cons c cs ih =>
+    rw [stripLoop, ih (i + 1) b c, List.length_cons, List.range_succ_eq_map, List.filterMap_cons,
+      List.filterMap_map]
+    have hrest : (List.range cs.length).filterMap
+        ((fun k => match (a :: b :: c :: cs)[k]?, (a :: b :: c :: cs)[k+1]?, (a :: b :: c :: cs)[k+2]? with
+          | some x, some y, some z =>
+              if x ≠ y ∧ y ≠ z ∧ z ≠ x then some (if (i + k) % 2 = 0 then (⟨x, y, z⟩ : Tri) else ⟨x, z, y⟩) else none
+          | _, _, _ => none) ∘ Nat.succ) =
+        (List.range cs.length).filterMap fun k =>
+          match (b :: c :: cs)[k]?, (b :: c :: cs)[k+1]?, (b :: c :: cs)[k+2]? with
+          | some x, some y, some z =>
+              if x ≠ y ∧ y ≠ z ∧ z ≠ x then some (if (i + 1 + k) % 2 = 0 then (⟨x, y, z⟩ : Tri) else ⟨x, z, y⟩) else none
+          | _, _, _ => none := by
+      congr 1
+      funext k
+      simp only [Function.comp, Nat.succ_eq_add_one, List.getElem?_cons_succ]
+      have : (i + (k + 1)) = (i + 1 + k) := by omega
+      rw [this]
+    rw [hrest]
+    simp only [List.getElem?_cons_zero, List.getElem?_cons_succ, Nat.add_zero]
+    split <;> simp_all
+
+end Nifly.Util
+
+namespace Nifly.Util
+
+/-! ### expand -/
+
+theorem expandSkip_spec (di : Nat) (idx : List Nat) (hasc : Asc idx) (hge : ∀ i ∈ idx, di ≤ i) :
+    ∃ consumed, idx = consumed ++ (expandSkip di idx).2 ∧ (expandSkip di idx).1 = di + consumed.length ∧
+      (∀ x ∈ consumed, x < (expandSkip di idx).1) ∧ (∀ x ∈ (expandSkip di idx).2, (expandSkip di idx).1 < x) := by
+  induction idx generalizing di with
+  | nil => exact ⟨[], by simp [expandSkip]⟩
+  | cons i is ih =>
+    have hasc' : Asc is := (List.pairwise_cons.mp hasc).2
+    have hlt : ∀ x ∈ is, i < x := (List.pairwise_cons.mp hasc).1
+    have hi : di ≤ i := hge i (by simp)
+    by_cases h : di = i
+    · subst h
+      obtain ⟨c, h1, h2, h3, h4⟩ := ih (di + 1) hasc' (fun x hx => by have := hlt x hx; omega)
+      refine ⟨di :: c, ?_, ?_, ?_, ?_⟩
+      · simp only [expandSkip, if_true, List.cons_append]; rw [← h1]
+      · simp only [expandSkip, if_true, List.length_cons]; omega
+      · intro x hx
+        simp only [expandSkip, if_true]
+        rcases List.mem_cons.mp hx with hx | hx
+        · omega
+        · exact h3 x hx
+      · simpa only [expandSkip, if_true] using h4
+    · refine ⟨[], ?_, ?_, ?_, ?_⟩ <;> simp only [expandSkip, h, if_false]
+      · simp
+      · simp
+      · simp
+      · intro x hx
+        rcases List.mem_cons.mp hx with hx | hx
+        · omega
+        · have := hlt x hx; omega
+
+theorem asc_of_append_right {a b : List Nat} (h : Asc (a ++ b)) : Asc b :=
+  (List.pairwise_append.mp h).2.1
+
+theorem expandLoop_spec (k di : Nat) (idx : List Nat) (hasc : Asc idx) (hge : ∀ i ∈ idx, di ≤ i)
+    (s : Nat) (hs : s < k) :
+    ∃ v : Nat, (expandLoop k di idx)[s]? = some (v : Int) ∧ v ∉ idx ∧
+      v = di + s + (idx.filter (· < v)).length := by
+  induction k generalizing di idx s with
+  | zero => omega
+  | succ k ih =>
+    obtain ⟨c, h1, h2, h3, h4⟩ := expandSkip_spec di idx hasc hge
+    simp only [expandLoop]
+    generalize hsk : expandSkip di idx = sk at h1 h2 h3 h4
+    obtain ⟨d', idx'⟩ := sk
+    simp only at h1 h2 h3 h4 ⊢
+    have hfil : ∀ v, d' ≤ v → (idx.filter (· < v)).length = c.length + (idx'.filter (· < v)).length := by
+      intro v hv
+      rw [h1, List.filter_append, List.length_append]
+      congr 1
+      rw [List.filter_eq_self.mpr]
+      intro x hx; have := h3 x hx; simp; omega
+    cases s with
+    | zero =>
+      refine ⟨d', by simp, ?_, ?_⟩
+      · rw [h1]; intro hm
+        rcases List.mem_append.mp hm with hm | hm
+        · have := h3 _ hm; omega
+        · have := h4 _ hm; omega
+      · rw [hfil d' (Nat.le_refl _)]
+        have : idx'.filter (· < d') = [] := by
+          rw [List.filter_eq_nil_iff]; intro x hx; have := h4 x hx; simp; omega
+        rw [this]; simp; omega
+    | succ s =>
+      have hasc' : Asc idx' := by rw [h1] at hasc; exact asc_of_append_right hasc
+      obtain ⟨v, hv1, hv2, hv3⟩ := ih (d' + 1) idx' hasc' (fun x hx => by have := h4 x hx; omega) s (by omega)
+      have hvge : d' + 1 ≤ v := by omega
+      refine ⟨v, by simpa using hv1, ?_, ?_⟩
+      · rw [h1]; intro hm
+        rcases List.mem_append.mp hm with hm | hm
+        · have := h3 _ hm; omega
+        · exact hv2 hm
+      · rw [hfil v (by omega)]; omega
+
+/-! ### insert -/
+
+/-- strictly descending -/
+abbrev Desc (l : List Nat) : Prop := l.Pairwise (· > ·)
+
+theorem desc_length_le (i : Nat) (is : List Nat) (h : Desc (i :: is)) : (i :: is).length ≤ i + 1 := by
+  induction is generalizing i with
+  | nil => simp
+  | cons j js ih =>
+    have h' : Desc (j :: js) := (List.pairwise_cons.mp h).2
+    have hj : i > j := (List.pairwise_cons.mp h).1 j (by simp)
+    have := ih j h'
+    simp only [List.length_cons] at this ⊢
+    omega
+
+/-- Characterisation of the insertion loop (output in high-to-low order): no out-of-range read,
+the right length, the occupied slots are exactly the input in order, and position `p` is an empty
+slot iff `p` is listed. -/
+theorem insertLoopRev_spec (m : Nat) (rv : List α) (ridx : List Nat)
+    (hd : Desc ridx) (hlt : ∀ i ∈ ridx, i < m) (hlen : rv.length + ridx.length = m) :
+    (insertLoopRev m rv ridx).2 = false ∧ (insertLoopRev m rv ridx).1.length = m ∧
+      (insertLoopRev m rv ridx).1.filterMap id = rv ∧
+      ∀ p, p < m → ((insertLoopRev m rv ridx).1[m - 1 - p]? = some none ↔ p ∈ ridx) := by
+  induction m generalizing rv ridx with
+  | zero =>
+    have : rv = [] := by cases rv <;> simp_all
+    subst this
+    simp [insertLoopRev]
+  | succ d ih =>
+    cases ridx with
+    | nil =>
+      simp only [List.length_nil, Nat.add_zero] at hlen
+      simp only [insertLoopRev, hlen, Nat.sub_self, List.replicate_zero, List.append_nil, List.length_map,
+        List.not_mem_nil, iff_false, true_and]
+      refine ⟨?_, ?_⟩
+      · rw [List.filterMap_map]; simp
+      · intro p _; simp
+    | cons i is =>
+      have hd' : Desc is := (List.pairwise_cons.mp hd).2
+      have hgt : ∀ x ∈ is, i > x := (List.pairwise_cons.mp hd).1
+      have hi : i < d + 1 := hlt i (by simp)
+      by_cases h : d = i
+      · subst h
+        have hlen' : rv.length + is.length = d := by simp at hlen; omega
+        obtain ⟨r1, r2, r3, r4⟩ := ih rv is hd' (fun x hx => hgt x hx) hlen'
+        simp only [insertLoopRev, if_true]
+        refine ⟨r1, by simp [r2], by simpa using r3, ?_⟩
+        intro p hp
+        by_cases hpd : p = d
+        · subst hpd; simp
+        · have hp' : p < d := by omega
+          have hidx : d + 1 - 1 - p = (d - 1 - p) + 1 := by omega
+          rw [hidx, List.getElem?_cons_succ, r4 p hp']
+          simp [hpd]
+      · have hid : i < d := by omega
+        have hcnt := desc_length_le i is hd
+        cases rv with
+        | nil => simp at hlen; simp at hcnt; omega
+        | cons x xs =>
+          have hlen' : xs.length + (i :: is).length = d := by simp at hlen ⊢; omega
+          obtain ⟨r1, r2, r3, r4⟩ := ih xs (i :: is) hd (fun y hy => by
+            rcases List.mem_cons.mp hy with hy | hy
+            · omega
+            · have := hgt y hy; omega) hlen'
+          simp only [insertLoopRev, h, if_false]
+          refine ⟨r1, by simp [r2], by simp [r3], ?_⟩
+          intro p hp
+          by_cases hpd : p = d
+          · subst hpd
+            simp only [Nat.add_sub_cancel, Nat.sub_self, List.getElem?_cons_zero]
+            constructor
+            · intro hc; simp at hc
+            · intro hm
+              rcases List.mem_cons.mp hm with hm | hm
+              · omega
+              · have := hgt _ hm; omega
+          · have hp' : p < d := by omega
+            have hidx : d + 1 - 1 - p = (d - 1 - p) + 1 := by omega
+            rw [hidx, List.getElem?_cons_succ, r4 p hp']
+
+/-! ### erase: cursor arithmetic of the move loop -/
+
+theorem eraseAccesses_bounds (k di si : Nat) (idx : List Nat) (h : di < si) :
+    ∀ a ∈ eraseAccesses k di si idx, a.1 < a.2 ∧ si ≤ a.2 ∧ a.2 < si + k := by
+  induction k generalizing di si idx with
+  | zero => simp [eraseAccesses]
+  | succ k ih =>
+    intro a ha
+    cases idx with
+    | nil =>
+      simp only [eraseAccesses, List.mem_cons] at ha
+      rcases ha with ha | ha
+      · subst ha; simp; omega
+      · have := ih (di + 1) (si + 1) [] (by omega) a ha; omega
+    | cons i is =>
+      simp only [eraseAccesses] at ha
+      split at ha
+      · have := ih di (si + 1) is (by omega) a ha; omega
+      · rcases List.mem_cons.mp ha with ha | ha
+        · subst ha; simp; omega
+        · have := ih (di + 1) (si + 1) (i :: is) (by omega) a ha; omega
+
+end Nifly.Util
+
+namespace Nifly.Util
+
+/-- slots after an ideal re-insertion: listed positions empty, every other position holds its element -/
+def maskFrom (s : Nat) : List α → List Nat → List (Option α)
+  | [], _ => []
+  | x :: xs, idx => (if s ∈ idx then none else some x) :: maskFrom (s + 1) xs idx
+
+theorem maskFrom_length (s : Nat) (v : List α) (idx : List Nat) : (maskFrom s v idx).length = v.length := by
+  induction v generalizing s with
+  | nil => rfl
+  | cons x xs ih => simp [maskFrom, ih]
+
+theorem maskFrom_filterMap (s : Nat) (v : List α) (idx : List Nat) :
+    (maskFrom s v idx).filterMap id = eraseSpecFrom s v idx := by
+  induction v generalizing s with
+  | nil => rfl
+  | cons x xs ih =>
+    simp only [maskFrom, eraseSpecFrom]
+    split <;> simp [ih]
+
+theorem maskFrom_none (s : Nat) (v : List α) (idx : List Nat) (p : Nat) :
+    (maskFrom s v idx)[p]? = some none ↔ p < v.length ∧ s + p ∈ idx := by
+  induction v generalizing s p with
+  | nil => simp [maskFrom]
+  | cons x xs ih =>
+    cases p with
+    | zero => simp only [maskFrom, List.getElem?_cons_zero, Nat.add_zero]; split <;> simp_all
+    | succ p =>
+      simp only [maskFrom, List.getElem?_cons_succ, ih (s + 1) p, List.length_cons]
+      have : s + 1 + p = s + (p + 1) := by omega
+      rw [this]; constructor <;> (intro h; exact ⟨by omega, h.2⟩)
+
+theorem maskFrom_get (s : Nat) (v : List α) (idx : List Nat) (p : Nat) (hp : p < v.length) (hn : s + p ∉ idx) :
+    (maskFrom s v idx)[p]? = some (some v[p]) := by
+  induction v generalizing s p with
+  | nil => simp at hp
+  | cons x xs ih =>
+    cases p with
+    | zero => simp only [maskFrom]; simp at hn; simp [hn]
+    | succ p =>
+      simp only [maskFrom, List.getElem?_cons_succ, List.getElem_cons_succ]
+      apply ih
+      have : s + 1 + p = s + (p + 1) := by omega
+      rw [this]; exact hn
+
+theorem opt_ext (a b : List (Option α)) (hl : a.length = b.length)
+    (hn : ∀ p : Nat, a[p]? = some none ↔ b[p]? = some none) (hf : a.filterMap id = b.filterMap id) : a = b := by
+  induction a generalizing b with
+  | nil => cases b <;> simp_all
+  | cons x xs ih =>
+    cases b with
+    | nil => simp at hl
+    | cons y ys =>
+      have h0 := hn 0
+      simp only [List.getElem?_cons_zero, Option.some.injEq] at h0
+      have hn' : ∀ p : Nat, xs[p]? = some none ↔ ys[p]? = some none := fun p => by simpa using hn (p + 1)
+      have hl' : xs.length = ys.length := by simpa using hl
+      cases x with
+      | none =>
+        have : y = none := h0.mp rfl
+        subst this
+        simp only [List.filterMap_cons, id] at hf
+        rw [ih ys hl' hn' hf]
+      | some u =>
+        cases y with
+        | none => have := h0.mpr rfl; simp at this
+        | some w =>
+          simp only [List.filterMap_cons, id, List.cons.injEq] at hf
+          rw [hf.1, ih ys hl' hn' hf.2]
+
+end Nifly.Util
